@@ -23,8 +23,8 @@ PROP_ID = "C13"
 DRIVER = "Ampverif/Drivers/C13.lean"
 SOURCES = ["src/ampform/helicity/__init__.py", "src/ampform/helicity/decay.py", "src/ampform/dynamics/builder.py",
            "src/ampform/helicity/naming.py", "src/ampform/kinematics/lorentz.py"]
-N_CASES = {"quick": {"corpus_rounds": 4, "synthetic": 250, "oracle_synthetic": 80, "max_ops": 8},
-           "thorough": {"corpus_rounds": 25, "synthetic": 1500, "oracle_synthetic": 400, "max_ops": 14}}
+N_CASES = {"quick": {"corpus_rounds": 3, "synthetic": 200, "oracle_synthetic": 70, "max_ops": 8, "form2": 40},
+           "thorough": {"corpus_rounds": 25, "synthetic": 1500, "oracle_synthetic": 400, "max_ops": 14, "form2": 500}}
 HIST_BUILDERS = [0, 1, 2, 3, 4, 5]
 MARKERS = [0, 4, 5, 6]
 
@@ -33,13 +33,21 @@ def make_case(R1, R, corpus, kind: str, mode: str, case_seed: int, max_ops: int,
     rng = random.Random(case_seed)
     reaction = corpus[corpus_name] if kind == "corpus" else R1.synthetic_reaction(rng, max_transitions=10)
     tb = R1.Tables(reaction)
-    ids = {"hist": HIST_BUILDERS, "form": R.FORM_BUILDERS, "oracle": MARKERS}[mode]
-    ops = R.random_ops(rng, reaction, tb, rng.randint(1, max_ops), ids, allow_bad=(mode != "oracle"))
-    return {"kind": kind, "mode": mode, "case_seed": case_seed, "corpus": corpus_name, "reaction": reaction, "tb": tb, "ops": ops}
+    ids = {"hist": HIST_BUILDERS, "form": R.FORM_BUILDERS, "oracle": MARKERS, "form2": [0, 4, 5, 6], "oracle2": MARKERS,
+           "all_parents": MARKERS, "reassign": MARKERS}[mode]
+    pre = None
+    if mode in {"all_parents", "reassign"}:
+        ops = R.forced_ops(rng, reaction, tb, mode)
+    else:
+        ops = R.random_ops(rng, reaction, tb, rng.randint(1, max_ops), ids, allow_bad=(mode not in {"oracle", "oracle2"}))
+    if mode in {"form2", "oracle2"}:  # assign -> formulate -> re-assign -> formulate on one builder
+        pre = R.random_ops(rng, reaction, tb, rng.randint(1, max(1, max_ops // 2)), ids, allow_bad=False)
+    return {"kind": kind, "mode": mode, "case_seed": case_seed, "corpus": corpus_name, "reaction": reaction, "tb": tb, "ops": ops, "pre": pre}
 
 
 def case_id(R, c: dict) -> dict:
-    return {"kind": c["kind"], "mode": c["mode"], "case_seed": c["case_seed"], "corpus": c["corpus"], "ops": R.describe_ops(c["ops"])}
+    return {"kind": c["kind"], "mode": c["mode"], "case_seed": c["case_seed"], "corpus": c["corpus"], "ops": R.describe_ops(c["ops"]),
+            "pre_ops": R.describe_ops(c["pre"]) if c.get("pre") else None}
 
 
 def infer_covers(R1, R, corpus, chk) -> tuple[bool, list[dict]]:
@@ -111,6 +119,11 @@ class C13Property:
         for _ in range(n["synthetic"]):
             for mode in ("hist", "form"):
                 plan.append(("synthetic", mode, rng.getrandbits(48), None))
+        for name in corpus:  # forced shapes on every corpus reaction
+            for mode in ("all_parents", "reassign", "form2"):
+                plan.append(("corpus", mode, rng.getrandbits(48), name))
+        for k in range(n["form2"]):
+            plan.append(("synthetic", ("form2", "all_parents", "reassign")[k % 3], rng.getrandbits(48), None))
         cases = []
         rejected = 0
         for kind, mode, cs, name in plan:
@@ -120,12 +133,30 @@ class C13Property:
                 rejected += 1
         chk.info("generator_rejections", rejected)
 
-        lines = [(R.hist_line if c["mode"] == "hist" else R.form_line)(covers, c["reaction"], c["tb"], c["ops"]) for c in cases]
+        lines = []
+        for c in cases:
+            if c["mode"] == "hist":
+                lines.append(R.hist_line(covers, c["reaction"], c["tb"], c["ops"]))
+            elif c["mode"] == "form2":
+                # two requests joined by a tab marker are not possible on one line: the first formulate is request k,
+                # the second (all operations so far) is sent as a separate line right after it
+                lines.append(R.form_line(covers, c["reaction"], c["tb"], c["pre"]))
+            else:
+                lines.append(R.form_line(covers, c["reaction"], c["tb"], c["ops"]))
+        second = {i: R.form_line(covers, c["reaction"], c["tb"], [*c["pre"], *c["ops"]]) for i, c in enumerate(cases) if c["mode"] == "form2"}
+        second_idx = sorted(second)
+        lines_all = lines + [second[i] for i in second_idx]
         lean_out: list[str] = []
+        second_out: dict = {}
         try:
             t0 = time.time()
-            lean_out = common.lean_run(DRIVER, "\n".join(lines) + "\n", timeout=1800).strip().split("\n")
+            all_out = common.lean_run(DRIVER, "\n".join(lines_all) + "\n", timeout=1800).strip().split("\n")
             chk.info("lean_driver_seconds", round(time.time() - t0, 1))
+            if len(all_out) == len(lines_all):
+                lean_out = all_out[:len(lines)]
+                second_out = dict(zip(second_idx, all_out[len(lines):]))
+            else:
+                lean_out = all_out
         except common.LeanRunError as e:
             chk.broken_correspondence("lean driver", str(e)[-800:])
         if lean_out and len(lean_out) != len(cases):
@@ -150,6 +181,18 @@ class C13Property:
                     real = R.real_hist(r, tb, ops)
                     dist["selector_steps_compared"] += len(real)
                     nontrivial = len(ops) >= 2 and d["n_transitions"] >= 2
+                elif c["mode"] == "form2":
+                    both = R.real_form2(r, tb, c["pre"], ops)
+                    real, real_second = both[0], both[1]
+                    dist["second_formulate_compared"] = dist.get("second_formulate_compared", 0) + 1
+                    nontrivial = bool(real_second.get("calls"))
+                    if lean_out and idx in second_out:
+                        lean2 = R.parse_form(second_out[idx])
+                        if lean2 != real_second:
+                            mism += 1
+                            if mism <= 3:
+                                chk.broken_correspondence("second formulate() on one builder after re-assignment vs model of all operations",
+                                                          {"case": case_id(R, c), "reaction": d, "diff": short_diff(real_second, lean2)})
                 else:
                     real, _ = R.real_form(r, tb, ops)
                     dist["form_outcome"][real.get("error", "ok")] = dist["form_outcome"].get(real.get("error", "ok"), 0) + 1
@@ -178,12 +221,12 @@ class C13Property:
         oracle_runs = 0
         for kind, cs, name in oracle_plan:
             try:
-                c = make_case(R1, R, corpus, kind, "oracle", cs, n["max_ops"], name)
+                c = make_case(R1, R, corpus, kind, "oracle2" if cs % 2 else "oracle", cs, n["max_ops"], name)
             except Exception:  # noqa: BLE001
                 continue
             try:
                 with R1.time_limit(120):
-                    bad = R.oracle_ratio(c["reaction"], c["tb"], c["ops"])
+                    bad = R.oracle_ratio(c["reaction"], c["tb"], c["ops"], pre_ops=c.get("pre"))
                     bad += R.oracle_defaults(c["reaction"]) if kind == "corpus" or oracle_runs % 5 == 0 else []
             except R1.CaseTimeout:
                 continue
@@ -284,8 +327,8 @@ def replay(rep: dict) -> int:
     covers = (rep.get("inferred_variant") or {}).get("selCoversComb", True)
     out = {"ops": R.describe_ops(c["ops"]), "reaction": R1.describe(c["reaction"])}
     code = 0
-    if inp["mode"] == "oracle":
-        bad = R.oracle_ratio(c["reaction"], c["tb"], c["ops"]) + R.oracle_defaults(c["reaction"])
+    if inp["mode"] in {"oracle", "oracle2"}:
+        bad = R.oracle_ratio(c["reaction"], c["tb"], c["ops"], pre_ops=c.get("pre")) + R.oracle_defaults(c["reaction"])
         out["oracle_failures"] = bad[:4]
         code = 1 if bad else 0
     else:
@@ -293,6 +336,11 @@ def replay(rep: dict) -> int:
         reply = common.lean_run(DRIVER, line + "\n").strip().split("\n")[0]
         if inp["mode"] == "hist":
             real, lean = R.real_hist(c["reaction"], c["tb"], c["ops"]), R.parse_hist(reply)
+        elif inp["mode"] == "form2":
+            real = R.real_form2(c["reaction"], c["tb"], c["pre"], c["ops"])
+            l1 = common.lean_run(DRIVER, R.form_line(covers, c["reaction"], c["tb"], c["pre"]) + "\n").strip().split("\n")[0]
+            l2 = common.lean_run(DRIVER, R.form_line(covers, c["reaction"], c["tb"], [*c["pre"], *c["ops"]]) + "\n").strip().split("\n")[0]
+            lean = [R.parse_form(l1), R.parse_form(l2)]
         else:
             real, lean = R.real_form(c["reaction"], c["tb"], c["ops"])[0], R.parse_form(reply)
         out["model_vs_real"] = "agree" if real == lean else short_diff(real, lean)
@@ -304,7 +352,7 @@ def replay(rep: dict) -> int:
 PROP = C13Property()
 
 MANIFEST = {
-    "technique": "Lean 4 theorems about an executable model of DynamicsSelector / __formulate_dynamics / default collection; T2 correspondence on assignment histories (choice map after every operation) and on formulated models with recording builders; independent ratio oracle on the real code",
+    "technique": "Lean 4 theorems about an executable model of DynamicsSelector / __formulate_dynamics / default collection; T2 correspondence on assignment histories (choice map after every operation), on formulated models with recording builders (incl. a builder on every decaying particle, re-assignment of one decay after a by-name assignment, assign -> formulate -> re-assign -> formulate on ONE builder); independent ratio oracle on the real code (first and second model of a builder)",
     "design_ref": "DESIGN.md §3 C13",
     "text": (
         "Proof. C13_selector: for EVERY history of assignments (by name, particle, decay, (transition,node), unsupported selections; "
